@@ -87,8 +87,11 @@ func TestC04(t *testing.T) {
 			o.MaxTrips, o.MaxVehicles, o.MaxIdless = 9, 6, 4
 		}
 		m, info := rgen.GenMsg(t, o)
-		c := CaseRT{Zone: zone, Msg: m}
+		c := CaseRT{Zone: zone, Msg: m, Primers: genPrimers(t, zone, m)}
 		var cls []string
+		if len(c.Primers) > 0 {
+			cls = append(cls, "after-earlier-calls")
+		}
 		if info.AssocTU > 0 {
 			cls = append(cls, "assoc-by-trip-update")
 		}
